@@ -46,6 +46,7 @@ FAULTS = {
     # a constant has no position: a position-relative modifier in its definition (at any nesting depth) names nothing
     'position_relative_constant': ['K2 = %offset(START)', 'K2 = %hi(%offset(START))', 'K2 = %lo(%offset(K1))', 'K2 = %lo(%offset(sp))',
                                    'K2 = %hi(%lo(%offset(K1)))', 'K2 = %lo(%offset(8))'],
+    'twin_text': ['beqz x8, START'],
     'error_directive': ['error this board is not supported', '  error indented message # with hash', 'error (paren, comma', 'error x'],
     'missing_include': ['include nosuch_file.asm', 'include "nosuch dir/f.asm"', 'include_bytes nosuch.bin', 'include'],
 }
@@ -55,12 +56,18 @@ def plant_api(asm, acc, fault_class, fault, pos, depth, compress, root=None):
     """-> nothing; records violations"""
     acc['n'] += 1
     lines = BASE[:pos] + [fault] + BASE[pos:]
+    shift = 0
+    if fault_class == 'twin_text':
+        # the faulty line has the very same text as an earlier line that is fine: here only its position makes it a fault
+        pos = max(pos, 5)
+        lines = BASE[:pos] + ['string ' + 'G' * 5000, fault] + BASE[pos:]
+        shift = 1
     case = {'kind': 'api', 'class': fault_class, 'fault': fault, 'pos': pos, 'depth': depth, 'compress': compress}
     acc['ntkeys'].add(core.ckey(fault, pos, depth, compress))
     core.see(acc, 'cells', '%s/%s/%s' % (fault_class, carrier(fault), 'c' if compress else 'u'))
     if depth == 0:
         o = monitors.observe(asm, '\n'.join(lines) + '\n', compress, tap=False)
-        want_file, want_line = '<string>', pos + 1
+        want_file, want_line = '<string>', pos + 1 + shift
         same_file = lambda f: f == '<string>'  # noqa
     else:
         # chain of files: main includes d1 includes d2 ...; the deepest holds the planted program
@@ -85,7 +92,7 @@ def plant_api(asm, acc, fault_class, fault, pos, depth, compress, root=None):
             with open(p, 'w') as f:
                 f.write('\n'.join(body) + '\n')
         o = monitors.observe(asm, os.path.join(root, 'main.asm'), compress, tap=False)
-        want_file, want_line = os.path.join(root, names[depth]), pos + 1 + extra
+        want_file, want_line = os.path.join(root, names[depth]), pos + 1 + extra + shift
         same_file = lambda f: isinstance(f, str) and os.path.realpath(f) == os.path.realpath(want_file)  # noqa
     if o.ok:
         # the fault was not a fault for this tree (e.g. a refactoring started accepting the syntax): nothing is refused, so the
@@ -150,6 +157,8 @@ def classify(fault_class, fault=None, e=None):
 
 
 def plant_cli(asm, acc, fault_class, fault, pos, depth, compress):
+    if fault_class == 'twin_text':
+        return
     root = tempfile.mkdtemp(prefix='bbv-c15-')
     try:
         lines = BASE[:pos] + [fault] + BASE[pos:]
